@@ -16,7 +16,9 @@
 //!     and exactly r - #{M: rank < t'} of rank t' (t' = r-th smallest
 //!     marked rank); every other marked entry is reprieved.
 //! Reprieved entries re-enter the queue in rank order: if old rank a < old
-//! rank b then new rank a <= new rank b.  Everything else is untouched.
+//! rank b then new rank a <= new rank b, and strictly < when timestamps are
+//! stored in nanoseconds and the clock strictly advances (`strict_order`).
+//! Everything else is untouched.
 
 use kismet_vfs::simfs::Ts;
 use std::collections::BTreeMap;
@@ -38,7 +40,7 @@ impl Entry {
 /// Checks an observed before/after pair.  `after` lacks evicted entries.
 /// `now_lo` is the simulated time when maintenance started (new ranks of
 /// reprieved entries must not be older than that, truncated to `gran`).
-pub fn check_maintenance(before: &[Entry], after: &[Entry], restamped: &[String], cap: usize, now_lo: Ts, gran: i64) -> Result<Summary, String> {
+pub fn check_maintenance(before: &[Entry], after: &[Entry], restamped: &[String], cap: usize, now_lo: Ts, gran: i64, strict_order: bool) -> Result<Summary, String> {
     let n = before.len();
     let after_map: BTreeMap<&str, &Entry> = after.iter().map(|e| (e.name.as_str(), e)).collect();
     for a in after {
@@ -155,6 +157,13 @@ pub fn check_maintenance(before: &[Entry], after: &[Entry], restamped: &[String]
     }
     for (b1, a1) in &moved {
         for (b2, a2) in &moved {
+            // When the filesystem stores nanoseconds and the clock strictly
+            // advances between any two readings, the queue order of reprieved
+            // entries is representable and must survive: equal new ranks
+            // would leave their order to the next directory listing.
+            if strict_order && b1.mtime < b2.mtime && a1.mtime == a2.mtime {
+                return Err(format!("reprieved entries {} (old rank {}) and {} (old rank {}) were given the same new rank {}: their queue order is lost", b1.name, b1.mtime, b2.name, b2.mtime, a1.mtime));
+            }
             if b1.mtime < b2.mtime && a1.mtime > a2.mtime {
                 return Err(format!("reprieved entries requeued out of order: {} (old {}) now {} > {} (old {}) now {}", b1.name, b1.mtime, a1.mtime, b2.name, b2.mtime, a2.mtime));
             }
